@@ -45,7 +45,7 @@ pub mod ent {
         #[verifier::external_body] pub fn get_range(&self, r: Range<u64>, calls: &mut Ghost<Seq<(u64, u64)>>) -> (s: InnerStream<D, E>)
             ensures s == e_stream(self, r.start, r.end), final(calls)@ == old(calls)@.push((r.start, r.end)) { unimplemented!() }
         #[verifier::external_body] pub fn add_headers(&self, h: &mut HeaderMap)
-            ensures final(h).entity_hdrs@, final(h).m == old(h).m, final(h).appended == old(h).appended, final(h).entries@ == old(h).entries@ + e_hdr_entries(self) { unimplemented!() }
+            ensures final(h).entity_hdrs@, final(h).m == old(h).m, final(h).appended == old(h).appended, final(h).entries@ == old(h).entries@ + e_hdr_entries(self), old(h).entries@.len() == 0 ==> final(h).entries@ == e_hdr_entries(self) { unimplemented!() }
     }
 }
 
